@@ -81,6 +81,13 @@ class World:
             if c['t'] == t:
                 c['alive'] = False
 
+    def close_then(self, t, frames):
+        self.h.close_then(self.t[t], frames)
+        self.t_alive[t] = False
+        for c in self.clients:
+            if c['t'] == t:
+                c['alive'] = False
+
     def do(self, x):
         return self.h.do(x)
 
